@@ -35,6 +35,9 @@ type Item struct {
 	At    string `json:"a,omitempty"` // "" = started by the work op and awaited | start = from inside the start routine (every invocation) | race = not awaited | prep = from inside the prep routine | reg = right after registration, before modules.Start
 	Cycle int    `json:"c,omitempty"` // online phase in which it is started
 	Self  bool   `json:"s,omitempty"` // finishes on its own Delay ms after it began (does not wait for the cancellation)
+	// service worker: back-off duration in ms handed to StartServiceWorker (0: 5 ms). After a run that ended with a plain
+	// error or a panic the worker waits failCnt × back-off before the next run — counted as a running worker meanwhile.
+	Backoff int `json:"bo,omitempty"`
 }
 
 // Mod is one module.
@@ -484,7 +487,17 @@ func body(i, j int, st *launch, ctx context.Context) error {
 	}
 	hev("h workExit %d %s status=%d", i, st.id, mods[i].Status())
 	if it.Kind == "sw" {
-		mev(i, "swReturn", st.id)
+		// cls: what runServiceWorker does with the result according to its documentation — f: finished (nil / context
+		// canceled), r: restart now, b: restart after the back-off (any other error, a panic)
+		cls := "f"
+		switch {
+		case runs > 4000:
+		case it.Ret == "err" || it.Ret == "panic":
+			cls = "b"
+		case it.Ret == "restartnow" || it.Ret == "restartwrap":
+			cls = "r"
+		}
+		mev(i, "swReturn", st.id+" cls="+cls)
 	}
 	if runs > 4000 {
 		return nil
@@ -517,11 +530,15 @@ func startItem(i, j int) *launch {
 		m.StartWorker(name, fn)
 	case "sw":
 		first := int32(1)
-		m.StartServiceWorker(name, 5*time.Millisecond, func(ctx context.Context) error {
+		backoff := 5 * time.Millisecond
+		if it.Backoff > 0 {
+			backoff = time.Duration(it.Backoff) * time.Millisecond
+		}
+		m.StartServiceWorker(name, backoff, func(ctx context.Context) error {
 			if it.Ret == "restart" && atomic.CompareAndSwapInt32(&first, 1, 0) {
 				mev(i, "workEnter", fmt.Sprintf("%s gen=%s", st.id, genOf(i, ctx)), ctx)
 				hev("h workExit %d %s status=%d restart", i, st.id, mods[i].Status())
-				mev(i, "swReturn", st.id)
+				mev(i, "swReturn", st.id+" cls=r")
 				return modules.ErrRestartNow
 			}
 			return body(i, j, st, ctx)
